@@ -15,7 +15,7 @@ CHECKS = {
          "Histories: every ordered pair (with echo) and every same-sector triple of 480 projection ops on fresh instances, BFS to closure over the memo-table states of small universes, and all ordered pairs/triples of ~40 public calls in fresh OS threads; every result must be bitwise equal to its cold value and every filled slot canonical. Schedules: depth-first enumeration of all interleavings of 2-3 real OS threads (real thread_local!/OnceLock/LazyLock) at the hook points up to a preemption bound, with warm globals in-process and with cold globals in a fresh process per execution; monitors: bitwise results, instance exclusivity, initialisers at most once, deadlock; violating schedules are replayed before being reported. Two auxiliary passes for shared state outside the hook points, reported separately and never used to claim that the property holds: first-touch calls of 2-3 threads under Miri's deterministic scheduler (one reproducible schedule per seed, preemption possible at every basic block), and a free-running pass in fresh processes. Further complete enumerations of finite history families: all ordered pairs of calls of 39+ families on one thread (lookups of whole neighbourhoods spread over faces that miss their first estimate, resolution chains, hierarchy calls incl. refused ones and collision families, Hilbert walks); long histories (a call repeated after exactly 255..65537 identical calls; 70 000 distinct calls with repeats at the table sizes 2^4..2^16); and one fresh process per prelude (43 named first histories: world expansions, 1000 easy lookups, a caller-supplied triangle, 65 600 fine cells, 300 threads, every first-touch op) followed by a fixed battery whose results must be identical bit for bit in all processes.",
          "Switch points only at the hook points (memo reads/stores, entry/exit of forward/inverse, first two accesses per lazy table); memory-ordering effects below that are not explored. loom/shuttle are not used because their coroutine threads would share std thread_local! state.", "5 C13"),
  "C14": ("totality", "exploration", "exhaustive enumeration of structured id / resolution / coordinate classes x every public function in two build profiles, each probe in a resource-limited child process",
-         "Every combination of a catalogue of ~15 k structured 64-bit patterns (every top-6 value x marker position x payload class), 87 resolution classes and 90 coordinate classes with every public function is executed in the release and in the overflow-checked build inside child processes (1 GiB address space, 10 s watchdog): the call must return, out-of-range resolutions must be rejected, results must be canonical ids of the requested resolution, non-cell bit patterns must be rejected or behave exactly as the canonical cell they alias. Also: runs of 255..2048 consecutive cells (aligned and unaligned) through compact/uncompact, numeric neighbours of the first/last cell of every resolution in lists, 700/70 000 short-lived threads, and calls made from a thread-local destructor during thread shutdown.",
+         "Every combination of a catalogue of ~15 k structured 64-bit patterns (every top-6 value x marker position x payload class), 87 resolution classes and 90 coordinate classes with every public function is executed in the release and in the overflow-checked build inside child processes (1 GiB address space, 10 s watchdog): the call must return, out-of-range resolutions must be rejected, results must be canonical ids of the requested resolution, non-cell bit patterns must be rejected or behave exactly as the canonical cell they alias. Also: runs of 255..2048 consecutive cells (aligned and unaligned) through compact/uncompact, numeric neighbours of the first/last cell of every resolution in lists, 700/4 000 short-lived threads, and calls made from a thread-local destructor during thread shutdown.",
          "Catalogue is structured, not all 2^64 values; calls with honest fan-out above 4^8 are skipped.", "5 C14"),
  "C06": ("golden", "exploration", "exhaustive agreement with a frozen reference table over an enumerated input set",
          "A table generated once from the reference release (all cells r<=5, digit-pattern families to r=29 covering every face x quintant x resolution, sphere lattice x resolutions 0..29) is compared entry by entry with the current tree: same id wherever the reference answer contained the point with margin, same centre and corner points within 1e-9 deg wherever the reference output was self-consistent. A second-generation table from the same reference release adds word-aligned ids (low 8..20 curve digits all 0 or all 3), the lattice written with longitudes +-360/+-720 and the centres the reference reports looked up again; a slice of the table is re-evaluated on single fresh threads in descending and jumping resolution order.",
